@@ -138,9 +138,9 @@ let () =
                | None -> None
                | Some (idx, c) -> Some (int_of_nat idx, class_name c) in
         let c13 = c13_ok h.h_d h.h_ids o0 h.h_events in
-        let c14 = c14_ok h.h_r h.h_d o0 h.h_events in
+        let c14 = c14_ok h.h_r h.h_d o0 h.h_events && c14T_ok h.h_r o0 h.h_events in
         let f13 = if c13 then -1 else first_fail (fun evs -> c13_ok h.h_d h.h_ids o0 evs) h.h_events in
-        let f14 = if c14 then -1 else first_fail (fun evs -> c14_ok h.h_r h.h_d o0 evs) h.h_events in
+        let f14 = if c14 then -1 else first_fail (fun evs -> c14_ok h.h_r h.h_d o0 evs && c14T_ok h.h_r o0 evs) h.h_events in
         Printf.printf "hist %d line %d nev %d acc %s m:c13 %d %d m:c14 %d %d f:refused 0\n" i h.h_line nev
           (match acc with None -> "ok" | Some (k, c) -> Printf.sprintf "div %d %s" k c)
           (if c13 then 1 else 0) f13 (if c14 then 1 else 0) f14;
@@ -151,7 +151,7 @@ let () =
   | None -> ()
   | Some oc ->
       output_string oc "From GV Require Import ME.Model ME.Monitors.\nOpen Scope Z_scope.\n";
-      output_string oc "Definition case_ok (ids : list N) (r d : Z) (o0 : obs) (tr : list event) (acc c13 c14 : bool) : bool :=\n  match NewMultiEndpoint ids r d with\n  | Some (s0, _) => Bool.eqb (match accept s0 1%nat tr with None => true | Some _ => false end) acc && Bool.eqb (C13_ok d ids o0 tr) c13 && Bool.eqb (C14_ok r d o0 tr) c14\n  | None => false\n  end.\n";
+      output_string oc "Definition case_ok (ids : list N) (r d : Z) (o0 : obs) (tr : list event) (acc c13 c14 : bool) : bool :=\n  match NewMultiEndpoint ids r d with\n  | Some (s0, _) => Bool.eqb (match accept s0 1%nat tr with None => true | Some _ => false end) acc && Bool.eqb (C13_ok d ids o0 tr) c13 && Bool.eqb (C14_ok r d o0 tr && C14T_ok r o0 tr) c14\n  | None => false\n  end.\n";
       List.iteri (fun i (h, o0, acc, c13, c14) ->
         Printf.fprintf oc "Definition case_%d : bool := case_ok %s %s %s %s %s %b %b %b.\n" i
           (clist cn h.h_ids) (cz h.h_r) (cz h.h_d) (cobs o0) (clist cev h.h_events) acc c13 c14) (List.rev !coq_cases);
